@@ -97,11 +97,16 @@ class OneOf:
 
 
 def check_table(decs: Sequence[Decision], atoms: Sequence[str], spec: Callable[[Dict[str, bool]], Any], outcome: Callable[[Decision], Any],
-                dont_care: Iterable[str] = (), equiv: Optional[Dict[str, Tuple[str, bool]]] = None, strict_foreign: bool = False) -> Tuple[List[str], List[str]]:
+                dont_care: Iterable[str] = (), equiv: Optional[Dict[str, Tuple[str, bool]]] = None, strict_foreign: bool = False,
+                assume: Optional[Dict[str, bool]] = None) -> Tuple[List[str], List[str]]:
     """Returns (violations, unknowns).  *atoms* are canonical keys; spec(total assignment) -> expected outcome or IGNORE.
     equiv: other spellings of a specification atom {text: (atom, same polarity?)} (library knowledge, e.g. 'len(p.components) > 1' == 'p.value is not None').
     strict_foreign: a path whose outcome differs from the specification is a violation even when it also tests conditions the specification does not know
     (they are treated as independent of the specification's atoms)."""
+    asm = {}
+    for k, v in (assume or {}).items():
+        kk, flip = canon_key(k)
+        asm[kk] = (v != flip)
     eq = {}
     for k, (a, pol) in (equiv or {}).items():
         kk, flip = canon_key(k)
@@ -134,7 +139,9 @@ def check_table(decs: Sequence[Decision], atoms: Sequence[str], spec: Callable[[
             assign.setdefault(k, v)
         if not feasible:
             continue
-        foreign = set(assign) - set(atoms) - dont_care
+        if any(k in assign and assign[k] != v for k, v in asm.items()):
+            continue  # the path needs a value the domain rules out (e.g. a note that is falsy)
+        foreign = set(assign) - set(atoms) - dont_care - set(asm)
         part = {a: assign[a] for a in atoms if a in assign}
         missing = [a for a in atoms if a not in part]
         for bits in itertools.product([False, True], repeat=len(missing)):
